@@ -109,7 +109,12 @@ func ISort() string {
 
 func intT(v int64) Term { return intBig(big.NewInt(v)) }
 
-func refT(v int64) Term { return Term{S: fmt.Sprint(v), Sort: "Ref", C: big.NewInt(v)} }
+func refT(v int64) Term {
+	if v < 0 { // SMT-LIB has no negative numerals: cvc5 rejects "-5" (z3 accepts it)
+		return Term{S: fmt.Sprintf("(- %d)", -v), Sort: "Ref", C: big.NewInt(v)}
+	}
+	return Term{S: fmt.Sprint(v), Sort: "Ref", C: big.NewInt(v)}
+}
 
 func refPos(r Term) Term { return app(">", "Bool", r, refT(0)) }
 
